@@ -945,3 +945,70 @@ def pmap_call_real(fn, a):
         return fn(a["func"], a["process_index"], a["indices"], a["executor"], a["status"], a["progress"])
     finally:
         R._submit, R.maybe_update_slurm_executor_map, R._wrap_with_status_update = saved
+
+
+# ---- pipefunc/map/xarray.py::load_xarray_dataset (C19: the dataset of a folder is the same construction as the one from
+# results - _xarray_dataset on the recorded MapSpecs and inputs - reading each value from the folder) -----------------------
+RunInfoNamesV = TRec("RunInfoNames", {"rid": TObj, "all_output_names": TObj})
+RunInfoNamesV.identity = "rid"
+xl_load = Contract(f"{RI}::RunInfo.load", params={"run_folder": TObj}, returns=RunInfoNamesV, trusted=True, pure=True, static=True,
+                   note="the run description recorded in the folder")
+xl_sorted = Contract("builtins::sorted", params={"xs": TObj}, returns=TSeq(TStr), trusted=True, pure=True,
+                     note="sorted(...): a function of its argument")
+xl_partial = Contract("functools::partial", params={"func": TObj, "run_folder": TObj}, returns=TObj, trusted=True, pure=True,
+                      note="functools.partial(_data_loader, run_folder=...): the loader that reads each value from the folder")
+xl_dataset = Contract(f"{XR}::_xarray_dataset",
+                      params={"mapspecs": TObj, "inputs": TObj, "data_loader": TObj, "output_names": TSeq(TStr),
+                              "load_intermediate": TBool}, defaults={"load_intermediate": True}, returns=TObj, trusted=True,
+                      pure=True, note="the construction of the dataset (C19's bounded check)")
+
+
+def _xl_ensures(S, a, r, post):
+    if not S.symbolic:
+        return {"built by _xarray_dataset from the folder's loader and the requested (or all recorded) names": r == (
+            "dataset", a.mapspecs, a.inputs, ("partial", "_data_loader", a.run_folder),
+            tuple(a.output_names) if a.output_names else ("sorted", ("all-names", a.run_folder)), a.load_intermediate)}
+    from pyvc.types import Val
+    import z3
+    loader = S.uf("fn:partial", TObj, Val(TObj, z3.Const("global:_data_loader", TObj.sort())), a.run_folder)
+    given = S.and_(S.not_(S.is_none(a.output_names)), lambda: S.len(S.some(a.output_names)) != 0)
+    names = S.ite(given, lambda: S.some(a.output_names), lambda: S.uf(
+        "fn:sorted", TSeq(TStr), S.uf("fn:RunInfo.load", RunInfoNamesV, a.run_folder).all_output_names))
+    return {"built by _xarray_dataset from the folder's loader and the requested (or, without a request, all recorded) names":
+            S.eq(r, S.uf("fn:_xarray_dataset", TObj, a.mapspecs, a.inputs, loader, names, a.load_intermediate))}
+
+
+xr_load_dataset = Contract(
+    f"{XR}::load_xarray_dataset",
+    params={"mapspecs": TObj, "inputs": TObj, "run_folder": TObj, "output_names": TOpt(TSeq(TStr)), "load_intermediate": TBool},
+    defaults={"output_names": None, "load_intermediate": True}, returns=TObj, ensures=_xl_ensures,
+    locals_={"_data_loader": TObj},
+)
+XR_LOAD = [xl_load, xl_sorted, xl_partial, xl_dataset, xr_load_dataset]
+
+
+def xl_gen(rng, tier):
+    for q in range(200 if tier == "quick" else 2000):
+        names = None if rng.random() < 0.3 else [rng.choice("abc") for _ in range(rng.randint(0, 3))]
+        yield {"mapspecs": ("mapspecs", q), "inputs": ("inputs", q), "run_folder": f"folder{q % 3}", "output_names": names,
+               "load_intermediate": rng.random() < 0.5}
+
+
+def xl_call(fn, a):
+    from types import SimpleNamespace as NS
+    import pipefunc.map.xarray as X
+    saved = (X.RunInfo, X.partial, X._xarray_dataset, X._data_loader)
+    X.RunInfo = NS(load=lambda folder: NS(all_output_names=("all-names", folder)))
+    X.partial = lambda f, run_folder: ("partial", f, run_folder)
+    X._data_loader = "_data_loader"
+    X._xarray_dataset = lambda mapspecs, inputs, data_loader, output_names, load_intermediate=True: (
+        "dataset", mapspecs, inputs, data_loader, tuple(output_names) if isinstance(output_names, list) else output_names,
+        load_intermediate)
+    real_sorted = sorted
+    X.sorted = lambda xs: ("sorted", xs)
+    try:
+        return fn(a["mapspecs"], a["inputs"], run_folder=a["run_folder"], output_names=a["output_names"],
+                  load_intermediate=a["load_intermediate"])
+    finally:
+        X.RunInfo, X.partial, X._xarray_dataset, X._data_loader = saved
+        del X.sorted
